@@ -57,7 +57,14 @@ def rust_for(c):
         if ret:
             b.append("let r1 = %s;" % call(name, rot, macro))
             b.append("let r2 = if a1 %% 2 == 0 { %s } else { 0 };" % call(name, dec, macro))
-            b.append("r1 + 3 * r2 + a1 * first + hv")
+            if n >= 2:
+                # a recursive call whose last argument is itself a recursive call (both hit the base case at once)
+                base0 = ["0"] + args[1:]
+                inner = call(name, base0, macro)
+                b.append("let r3 = %s;" % call(name, ["0"] + args[1:-1] + [inner], macro))
+                b.append("r1 + 3 * r2 + a1 * first + hv + r3")
+            else:
+                b.append("r1 + 3 * r2 + a1 * first + hv")
         else:
             b.append("%s;" % call(name, rot, macro))
             b.append("if a1 %% 2 == 0 { %s; }" % call(name, dec, macro))
